@@ -134,7 +134,6 @@ func VerifHarness_C30_Conc_TwoInserters() {
 	hSkiplistInserts(2, true)
 }
 
-
 // three inserters between two existing keys (one can be on its retry path while the two others complete)
 func VerifHarness_C30_Conc_ThreeInserters() {
 	sym.MaxPreempt(2)
